@@ -113,6 +113,14 @@ impl Packer {
         }
         Ok(())
     }
+    /// the end of file mark of a ProDOS file is 3 bytes long
+    fn verify_length(len: usize) -> STDRESULT {
+        if len > 0xffffff {
+            log::error!("{} bytes cannot be stored in a ProDOS file",len);
+            return Err(Box::new(Error::ProgramTooLarge));
+        }
+        Ok(())
+    }
 }
 
 impl Packing for Packer {
@@ -157,6 +165,7 @@ impl Packing for Packer {
     
     fn pack_raw(&self,fimg: &mut FileImage,dat: &[u8]) -> STDRESULT {
         Self::verify(fimg)?;
+        Self::verify_length(dat.len())?;
         fimg.desequence(dat);
         fimg.fs_type = vec![FileType::Text as u8];
         fimg.access = vec![STD_ACCESS | DIDCHANGE];
@@ -180,6 +189,7 @@ impl Packing for Packer {
             None => dat.to_vec()
         };
         if let Some(addr) = load_addr {
+            Self::verify_length(padded.len())?;
             fimg.desequence(&padded);
             fimg.fs_type = vec![FileType::Binary as u8];
             fimg.access = vec![STD_ACCESS | DIDCHANGE];
@@ -197,6 +207,7 @@ impl Packing for Packer {
     fn pack_txt(&self,fimg: &mut FileImage,txt: &str) -> STDRESULT {
         Self::verify(fimg)?;
         let file = SequentialText::from_str(txt)?;
+        Self::verify_length(file.to_bytes().len())?;
         fimg.desequence(&file.to_bytes());
         fimg.access = vec![STD_ACCESS | DIDCHANGE];
         fimg.fs_type = vec![FileType::Text as u8];
@@ -216,6 +227,7 @@ impl Packing for Packer {
             Some(v) => [tok,v].concat(),
             None => tok.to_vec()
         };
+        Self::verify_length(padded.len())?;
         fimg.desequence(&padded);
         fimg.access = vec![STD_ACCESS | DIDCHANGE];
         match lang {
@@ -243,7 +255,8 @@ impl Packing for Packer {
         fimg.fs_type = vec![FileType::Text as u8];
         fimg.aux = u16::to_le_bytes(recs.record_len.try_into()?).to_vec();
         fimg.access = vec![STD_ACCESS | DIDCHANGE];
-        recs.update_fimg(fimg, true, converter, true)
+        recs.update_fimg(fimg, true, converter, true)?;
+        Self::verify_length(fimg.get_eof())
     }
     
     fn unpack_rec(&self,fimg: &FileImage,rec_len: Option<usize>) -> Result<Records,DYNERR> {
